@@ -6,7 +6,7 @@
 //
 // Rules (see DESIGN.md §3.1):
 //
-//	R1 sync.Mutex/RWMutex/Once      -> verifMutex/verifRWMutex/verifOnce
+//	R1 sync.Mutex/RWMutex/Once/Pool -> verifMutex/verifRWMutex/verifOnce/verifPool
 //	R2 go f(a...)                   -> deterministic spawn token + start hook + panic capture
 //	R3 g.Go(func() error {...})     -> g.Go(verifWrapErrFunc(func() error {...}))
 //	R4 scheduling points around channel operations, selects, close, len/cap
@@ -339,7 +339,7 @@ func (fi *fileInstr) passA() ([]byte, error) {
 		case *ast.SelectorExpr:
 			if id, ok := t.X.(*ast.Ident); ok && id.Name == "sync" {
 				switch t.Sel.Name {
-				case "Mutex", "RWMutex", "Once":
+				case "Mutex", "RWMutex", "Once", "Pool":
 					fi.edits = append(fi.edits, edit{fi.off(t.Pos()), fi.off(t.End()), "verif" + t.Sel.Name, 0})
 				}
 			}
